@@ -270,7 +270,9 @@ fn main() {
             let mut out = std::io::BufWriter::new(std::fs::File::create(&args[2]).unwrap());
             use std::io::Write;
             let long = "a".repeat(84);
-            let prefixes: Vec<(&str, &str)> = vec![("ok", "osmo"), ("upper", "OSMO"), ("mixed", "Osmo"), ("mixed", "oSMO"), ("mixed", "osmO"),
+            let p40 = "a".repeat(40);
+            let p83 = "b".repeat(83);
+            let prefixes: Vec<(&str, &str)> = vec![("long", &p40), ("max", &p83), ("ok", "osmo"), ("upper", "OSMO"), ("mixed", "Osmo"), ("mixed", "oSMO"), ("mixed", "osmO"),
                 ("other", "milk"), ("other", "init"), ("badchar", "os mo"), ("empty", ""), ("toolong", &long), ("digit", "osmo1"), ("same", "celestia")];
             let mut null = Sink::new(Box::new(std::io::sink()));
             let mut base = Run::new(Setup::default(), 1);
@@ -305,13 +307,23 @@ fn main() {
             };
             for (pclass, pfx) in &prefixes {
                 for ch in ["channel-1", "channel-7", "channel-17", "channel-007"] {
+                  // the protocol section alone, and together with a native section that rotates staker and collector
+                  for combined in [false, true] {
                     let mut r = base.clone();
-                    let up = r.apply(&mut null, &json!({"m":"update_config","s":"admin","up":{"proto":{"prefix":pfx,"channel":ch,"oracle":""}}}));
+                    let upd = if combined {
+                        json!({"m":"update_config","s":"admin","up":{"proto":{"prefix":pfx,"channel":ch,"oracle":""},"native":{"staker":"staker2","collector":"collector2"}}})
+                    } else {
+                        json!({"m":"update_config","s":"admin","up":{"proto":{"prefix":pfx,"channel":ch,"oracle":""}}})
+                    };
+                    let up = r.apply(&mut null, &upd);
                     let cfg = proj::cfg_of(&r.w);
                     let sp = cfg.pointer("/protocol_chain_config/account_address_prefix").and_then(|x| x.as_str()).unwrap_or("").to_string();
                     let sc = cfg.pointer("/protocol_chain_config/ibc_channel_id").and_then(|x| x.as_str()).unwrap_or("").to_string();
                     let staker = cfg.pointer("/native_chain_config/staker_address").and_then(|x| x.as_str()).unwrap_or("").to_string();
                     let coll = cfg.pointer("/native_chain_config/reward_collector_address").and_then(|x| x.as_str()).unwrap_or("").to_string();
+                    // an ACCEPTED update installs what was asked for (prefixes are stored lower-case)
+                    let applied = !up.ok || (sp == pfx.to_lowercase() && sc == ch
+                        && (!combined || (staker == r.w.names.ad("staker2") && coll == r.w.names.ad("collector2"))));
                     for (handler, origin) in [("receive_unstaked_tokens", &staker), ("receive_rewards", &coll)] {
                         let other = if handler == "receive_rewards" { &staker } else { &coll };
                         let expected = hook_opt(&sc, origin, &sp);
@@ -337,11 +349,12 @@ fn main() {
                             let msg = if handler == "receive_rewards" { json!({"receive_rewards": {}}) } else { json!({"receive_unstaked_tokens": {"batch_id": 1}}) };
                             let o = w.tx_execute(&sender, &msg, &[(sim::IBC_DENOM.to_string(), 24)], &sim::TxEnv::default());
                             writeln!(out, "{}", json!({"kind": "auth", "handler": handler, "pclass": pclass, "asked_prefix": pfx, "asked_channel": ch,
-                                "update_ok": up.ok, "prefix": sp, "channel": sc, "expected_exists": expected.is_some(),
+                                "update_ok": up.ok, "combined": combined, "update_applied": applied, "prefix": sp, "channel": sc, "expected_exists": expected.is_some(),
                                 "cand": label, "is_expected": Some(&sender) == expected.as_ref(), "accepted": o.ok, "panic": o.panic,
                                 "err": o.err.chars().take(120).collect::<String>()})).unwrap();
                         }
                     }
+                  }
                 }
             }
         }
